@@ -234,27 +234,41 @@ func (m *StringifiedMessage) encode(d *Decoder, sb *strings.Builder, tagType byt
 	return nil
 }
 
-func writeEscapeStr(sb *strings.Builder, str string) {
+// needQuote reports whether str written bare would not read back as the same TAG_String:
+// it is empty, has a character not allowed in unquoted strings, or looks like a number or a boolean.
+func needQuote(str string) bool {
+	if str == "" || str == "true" || str == "false" {
+		return true
+	}
+	if c := str[0]; isNumber(c) || c == '-' || c == '+' || c == '.' {
+		return true
+	}
 	for _, v := range []byte(str) {
 		if !isAllowedInUnquotedString(v) {
-			// need quote
-			dc := strings.Count(str, `"`)
-			sc := strings.Count(str, `'`)
-			if dc > sc {
-				sb.WriteString("'")
-				if _, err := strings.NewReplacer(`'`, `\'`, `\`, `\\`).WriteString(sb, str); err != nil {
-					panic(err)
-				}
-				sb.WriteString("'")
-			} else {
-				sb.WriteString(`"`)
-				if _, err := strings.NewReplacer(`"`, `\"`, `\`, `\\`).WriteString(sb, str); err != nil {
-					panic(err)
-				}
-				sb.WriteString(`"`)
-			}
-			return
+			return true
 		}
 	}
-	sb.WriteString(str)
+	return false
+}
+
+func writeEscapeStr(sb *strings.Builder, str string) {
+	if !needQuote(str) {
+		sb.WriteString(str)
+		return
+	}
+	dc := strings.Count(str, `"`)
+	sc := strings.Count(str, `'`)
+	if dc > sc {
+		sb.WriteString("'")
+		if _, err := strings.NewReplacer(`'`, `\'`, `\`, `\\`).WriteString(sb, str); err != nil {
+			panic(err)
+		}
+		sb.WriteString("'")
+	} else {
+		sb.WriteString(`"`)
+		if _, err := strings.NewReplacer(`"`, `\"`, `\`, `\\`).WriteString(sb, str); err != nil {
+			panic(err)
+		}
+		sb.WriteString(`"`)
+	}
 }
